@@ -57,6 +57,20 @@ CLAIMS.update({
         text="Interpreter side: for every stack-based host function signature of 0..3 params and 0..2 results over {i32,i64,f32,f64} and all values, the host receives exactly the guest's values and guest and Go caller "
              "(Call and CallWithStack) receive exactly the host's results; reflection-defined host functions (a model of the reflect calls callGoFunc makes) for four representative signatures; api Encode/Decode round trips. "
              "wazevo's entry preambles and Go-call trampolines are outside this claim."),
+    "C06": dict(level="model_checking", engine="gosym", technique=E1_TECH, design_ref="DESIGN.md §5 C06",
+        text="Interpreter side, real pipeline: a guest function that first writes memory and a global and then fails in one of 8 ways (unreachable, integer divide by zero, out-of-bounds load, unbounded recursion to the "
+             "call-stack ceiling, host panic with sys.ExitError of any code, host panic with an error, with a string, Go run-time error inside the host function), directly or nested guest->host->guest, for all argument values: "
+             "the caller gets the documented error kind, earlier effects persist, the call engine's stack and frames are empty, the same function object fails the same way again and the instance keeps computing correctly. "
+             "wazevo's native unwinding, stack growth and register save areas are outside this claim."),
+    "C07": dict(level="model_checking", engine="gosym", technique=E1_TECH, design_ref="DESIGN.md §5 C07",
+        text="Interpreter side, compiled with close-on-context-done: for 10 cycle shapes (loop br / br_if / br_table, nested loops, self and mutual recursion, return_call self and mutual, call_indirect and "
+             "return_call_indirect cycles) with every branch condition symbolic, a module closed before the cycle ends the call with the exit error for its cause within a step budget (exceeding the budget is the violation, replayed "
+             "natively as a hang); a close arriving from a host callback at round 0..2 stops the guest at the next check; a call with an already-done context returns the matching exit code and closes the module. "
+             "The watcher goroutine is not scheduled in the model (its effect is applied explicitly); wall-clock promptness and the compiler side are outside this claim."),
+    "C20": dict(level="model_checking", engine="gosym", technique=E1_TECH, design_ref="DESIGN.md §5 C20",
+        text="Interpreter side: guest f -> guest g -> host h with recording listeners, all parameter/result values and the trap decision symbolic: the event log is well nested with exactly one before and one after/abort per call, "
+             "carries the actual parameters and results, the stack iterator lists the real chain callee-outward at every before-event, results equal the listener-free run; recursion to every depth 0..39 followed by a trap "
+             "gives every frame its abort. wazevo's listener trampolines and native stack iterator are outside this claim."),
 })
 
 NOT_APPLICABLE = {
